@@ -84,6 +84,11 @@ def scenarios(ctx, rng):
               ent("k", old, {"time": "7"}), ent("k", new, {"metadata": bigmeta}))
             S("oneshot-write", mode, {"op": "write", "cache": "<C>", "key": "k", "data": ctx.data(new)},
               [W("k", old, {"time": "7"})], "k", ent("k", old, {"time": "7"}), "oneshot")
+        # one record larger than every small-write threshold (4 KiB pages, 8 KiB buffers): whatever the library does
+        # differently for such records must also be all-or-nothing, and must not get in the way of the next call
+        hugemeta = {"blob": "h" * 9000}
+        S("huge-metadata", mode, W("k", new, {"metadata": hugemeta}), [W("k", old, {"time": "7"})], "k",
+          ent("k", old, {"time": "7"}), ent("k", new, {"metadata": hugemeta}))
     return out, new
 
 
@@ -134,6 +139,8 @@ def run(ctx):
                 step = 1      # every prefix, incl. every cut inside a multi-byte character
             else:
                 step = 5 if sc.mode.startswith("sync") else 11
+            if sc.name == "huge-metadata":
+                step = 7 if not ctx.quick else 263 if sc.mode.startswith("sync") else 911
             for k in range(0, c, step):
                 jobs.append((n, k, 0))
         ctx.count(f"visible_calls[{sc.name}@{sc.mode}]", T)
@@ -170,6 +177,8 @@ def run(ctx):
             if which is not None:
                 ctx.count(f"post_state[{which}]")
                 conts = CONTINUATIONS if not ctx.quick else [CONTINUATIONS[(n + (k or 0)) % len(CONTINUATIONS)]]
+                if ctx.quick and sc.name == "huge-metadata" and "retry-interrupted" not in conts:
+                    conts = conts + ["retry-interrupted"]     # the same large record again
                 for ci, cname in enumerate(conts):
                     c2 = cache
                     if len(conts) > 1 and ci < len(conts) - 1:
